@@ -128,6 +128,7 @@ def _build_universe_deck(rng, depth=None, macro_p=0.15, tr_p=0.1, fill_tr_p=0.6,
         return u
 
     universes = []
+    by_trcl = {}     # universe -> True: every container of it has no FILL transformation and is placed by its own TRCL
 
     def make_filled(c, level):
         if universes and rng.random() < reuse_p:
@@ -138,16 +139,19 @@ def _build_universe_deck(rng, depth=None, macro_p=0.15, tr_p=0.1, fill_tr_p=0.6,
         else:
             u = new_universe(level)
         universes.append(u)
+        if u not in by_trcl:
+            by_trcl[u] = reuse_p > 0 and rng.random() < 0.3
+        p_ft, p_tc = (0.0, 0.75) if by_trcl[u] else (fill_tr_p, trcl_p)
         c.mat, c.rho = 0, None
         c.fill = {'u': u, 'tr': None}
-        if rng.random() < fill_tr_p:
+        if rng.random() < p_ft:
             m, cls = G.random_motion(rng, rng.choice(rot_classes) if rot_classes else None)
             if rng.random() < 0.12:
                 # an explicit identity FILL transformation still takes precedence over the cell's TRCL
                 m, cls = D.Motion([0.0, 0.0, 0.0], list(D.IDENT)), 'id'
             c.fill['tr'] = m
             _spell_motion(d, rng, m, cls, c, 'fill')
-        if rng.random() < trcl_p:
+        if rng.random() < p_tc:
             m, cls = G.random_motion(rng, rng.choice(rot_classes) if rot_classes else None)
             c.trcl = m
             _spell_motion(d, rng, m, cls, c, 'trcl')
